@@ -449,6 +449,10 @@ def make_strategy(script: dict):
             try:
                 s = self.s
                 kinds = s.get('update_kinds') or []
+                if s.get('close_at') and self.index in s['close_at']:
+                    # close at market now; should_long / should_short run again in this same bar once the position is flat
+                    self.liquidate()
+                    return
                 if s.get('add_at') and self.index in s['add_at']:
                     # add to the position with a market order (re-declared entry)
                     if self.is_long:
